@@ -1,5 +1,5 @@
 (* Api.v — stable names for the extracted entry points. *)
-From SJ Require Import lib.Base model.Json model.Ast model.ExecLib model.Leaf model.Exec spec.Sem spec.Proj.
+From SJ Require Import lib.Base model.Json model.Ast model.ExecLib model.Leaf model.Exec spec.Sem spec.Proj spec.ArithSpec.
 Definition api_query := Query.
 Definition api_first := First.
 Definition api_exists := Exists.
@@ -13,3 +13,6 @@ Definition api_spec_match := spec_match.
 Definition api_spec_eom := spec_eom.
 Definition api_sem_of := sem_of.
 Definition api_accessor_chain := accessor_chain.
+Definition api_arith_spec := arith_spec.
+Definition api_neg_spec := neg_spec.
+Definition api_abs_spec := abs_spec.
